@@ -461,4 +461,22 @@ p("c14-p-rename", "C14", LLF,
   "        parsing_table = self.get_llone_parsing_table()\n        parse_tree = ParseTree(self._cfg.start_symbol)",
   "        parsing_table = self.get_llone_parsing_table()\n        root_symbol = self._cfg.start_symbol\n        parse_tree = ParseTree(root_symbol)")
 
+# ----------------------------------------------------------------------------- C15
+RDF2 = "pyformlang/cfg/recursive_decent_parser.py"
+b("c15-rd-commit-early", "C15", RDF2,
+  "                if self._get_parse_tree_sub(word, new_expansion, left):\n                    to_expand[1].sons = [x[1] for x in replacement]\n                    return True",
+  "                to_expand[1].sons = [x[1] for x in replacement]\n                if self._get_parse_tree_sub(word, new_expansion, left):\n                    return True",
+  "commit-on-success")
+b("c15-cyk-one-pointer", "C15", CYKF,
+  "                        CYKNode(var_a, var_b, var_c))", "                        CYKNode(var_a, var_b))", "both-back-pointers")
+b("c15-cyk-root-any", "C15", CYKF,
+  "            if x == self._cnf.start_symbol][0]", "            ][0]", "root=start-symbol")
+b("c15-cnf-raises-valueerror", "C15", CFGF,
+  "        if not word and not self.generate_epsilon():\n            raise DerivationDoesNotExist", "        if not word and not self.generate_epsilon():\n            raise ValueError",
+  "refuses-with:DerivationDoesNotExist")
+b("c15-cyknode-right-first", "C15", CYKF,
+  "        if left_son is not None:\n            self.sons.append(left_son)\n        if right_son is not None:\n            self.sons.append(right_son)",
+  "        if right_son is not None:\n            self.sons.append(right_son)\n        if left_son is not None:\n            self.sons.append(left_son)",
+  "children-left-then-right")
+
 VARIANTS = V
